@@ -28,6 +28,12 @@ CHECKS = {
   technique="differential monitoring of the real ValidatorSet / updateStatus / fault-evidence code against a one-step big.Int reference, path-composition comparison, exact fairness windows",
   text="Random validator sets (incl. extreme powers): IncrementAccum(n) vs all compositions of n, single step vs saturating reference, exact weighted-round-robin fairness over windows, identity/copy/aliasing, add/update/remove histories vs a map model, ApplyBlock's validator update and VerifyFaultValEvidence call sites. Held on the sets explored.",
   note="library level plus ApplyBlock at height 1; round skipping inside enterNewRound is exercised by C01's simulator (same IncrementAccum). One genuine defect found and fixed (known_findings.txt)."),
+ "C03": dict(
+  level="exploration", design="§5 C03", engine="refmodel",
+  technique="differential monitoring of VerifyCommit / BlockExecutor.ValidateBlock / VoteSet / MultiSignAccountTx.VerifySign against an independent big.Int tally with independently rebuilt sign-bytes and raw-key signature verification; shadow model of VoteSet per AddVote",
+  text="Commits are derived by mutation from valid ones so that cases sit exactly on the 2/3 threshold (floor-1, floor, floor+1 for every total mod 3, totals up to 2^62-1) and cover 19 slot defect classes; VoteSet histories (exhaustive orders for small sets, peer-claimed majorities, conflicts, re-signed votes) are compared with a shadow model after every AddVote. "
+       "The safety direction (accepting what the reference rejects) is decisive. Held on the commits and histories explored.",
+  note="fast-sync acceptance and reconstructLastCommit are exercised only through the functions they call; VerifyCommitAny (no caller in the repo) counts one validator many times - diagnostic only."),
  "C04": dict(
   level="fault_enumeration", design="§5 C04", engine="core",
   technique="release-set history oracle over the real FilePV with crash points enumerated per request: in-process key-file state enumeration (OLD+stray temp / NEW x re-issue orders) and real syscall faults / SIGKILL injected with strace in a child process",
